@@ -102,13 +102,13 @@ theorem AllValid.put {st : Store (Tree α β)} (h : AllValid cmp st) (t : Nat) {
 variable [LawfulPacked α] [LawfulPacked β]
 
 /-- one step -/
-theorem step_refines [TransCmp cmp] (st : Store (Tree α β)) (op : Op α β) (hv : AllValid cmp st)
+theorem step_refines [TransCmp cmp] (hsrc : SourceOk) (st : Store (Tree α β)) (op : Op α β) (hv : AllValid cmp st)
     (hty : op.typed (sizeStore st)) :
     ∃ st' o, step cmp st op = some (st', o) ∧ Spec.step cmp (absStore st) op = (absStore st', o) ∧
       AllValid cmp st' ∧ tyStep (sizeStore st) op = sizeStore st' := by
   cases op with
   | new t ks vs init =>
-    obtain ⟨m, e, v, a, z⟩ := new_valid (cmp := cmp) ks vs init hty
+    obtain ⟨m, e, v, a, z⟩ := new_valid (cmp := cmp) hsrc ks vs init hty
     exact ⟨st.put t m, .done, by simp [step, e], by simp [Spec.step, put_abs, a], hv.put t v,
       by simp [tyStep, put_size, z]⟩
   | set t k v =>
@@ -116,14 +116,14 @@ theorem step_refines [TransCmp cmp] (st : Store (Tree α β)) (op : Op α β) (h
     cases hg : st.get? t with
     | none => exact ⟨st, .noobj, rfl, rfl, hv, rfl⟩
     | some m =>
-      obtain ⟨m', e, v', a, z⟩ := set_valid m k v (hv.get hg) (hty m.sizes (by simp [get?_size, hg]))
+      obtain ⟨m', e, v', a, z⟩ := set_valid hsrc m k v (hv.get hg) (hty m.sizes (by simp [get?_size, hg]))
       exact ⟨st.put t m', .done, by simp [e], by simp [put_abs, a], hv.put t v', by simp [put_size, z]⟩
   | rem t k =>
     simp only [step, Spec.step, tyStep, get?_abs, get?_size]
     cases hg : st.get? t with
     | none => exact ⟨st, .noobj, rfl, rfl, hv, rfl⟩
     | some m =>
-      obtain ⟨m', o, e, v', z, a⟩ := rem_valid m k (hv.get hg)
+      obtain ⟨m', o, e, v', z, a⟩ := rem_valid hsrc m k (hv.get hg)
       refine ⟨st.put t m', obsOf o, by simp [e], ?_, hv.put t v', by simp [put_size, z]⟩
       rcases a with ⟨a1, rfl, rfl⟩ | ⟨a1, rfl, a3⟩
       · simp [a1, put_abs, obsOf]
@@ -135,13 +135,13 @@ theorem step_refines [TransCmp cmp] (st : Store (Tree α β)) (op : Op α β) (h
     | none => exact ⟨st, .noobj, rfl, rfl, hv, rfl⟩
     | some m =>
       refine ⟨st, _, rfl, ?_, hv, rfl⟩
-      simp only [Option.map_some, get_eq m k (hv.get hg)]
+      simp only [Option.map_some, get_eq hsrc m k (hv.get hg)]
       cases Spec.get cmp k m.abs <;> rfl
   | mem t k =>
     simp only [step, Spec.step, tyStep, get?_abs]
     cases hg : st.get? t with
     | none => exact ⟨st, .noobj, rfl, rfl, hv, rfl⟩
-    | some m => exact ⟨st, _, rfl, by simp [mem_eq m k (hv.get hg)], hv, rfl⟩
+    | some m => exact ⟨st, _, rfl, by simp [mem_eq hsrc m k (hv.get hg)], hv, rfl⟩
   | len t =>
     simp only [step, Spec.step, tyStep, get?_abs]
     cases hg : st.get? t with
@@ -169,9 +169,9 @@ theorem step_refines [TransCmp cmp] (st : Store (Tree α β)) (op : Op α β) (h
         · -- `self is obj`: nothing happens; the map assigned to itself is itself
           subst hts
           rw [hg] at hs; cases hs
-          exact ⟨st.put t m, .done, by simp [Tree.assignSelf, obsOf], by simp [put_abs], hv.put t (hv.get hg),
+          exact ⟨st.put t m, .done, by simp [hsrc.selfGuard, Tree.assignSelf, obsOf], by simp [put_abs], hv.put t (hv.get hg),
             by simp [put_size]⟩
-        · obtain ⟨m', e, v', a, z⟩ := assign_valid (cmp := cmp) m src (hv.get hs)
+        · obtain ⟨m', e, v', a, z⟩ := assign_valid (cmp := cmp) hsrc m src (hv.get hs)
           exact ⟨st.put t m', .done, by simp [hts, e, obsOf], by simp [put_abs, a], hv.put t v',
             by simp [put_size, z]⟩
   | copy t s =>
@@ -179,7 +179,7 @@ theorem step_refines [TransCmp cmp] (st : Store (Tree α β)) (op : Op α β) (h
     cases hs : st.get? s with
     | none => exact ⟨st, .noobj, rfl, rfl, hv, rfl⟩
     | some src =>
-      obtain ⟨m', e, v', a, z⟩ := copy_valid (cmp := cmp) src (hv.get hs)
+      obtain ⟨m', e, v', a, z⟩ := copy_valid (cmp := cmp) hsrc src (hv.get hs)
       exact ⟨st.put t m', .done, by simp [e, obsOf], by simp [put_abs, a], hv.put t v', by simp [put_size, z]⟩
   | iter t =>
     simp only [step, Spec.step, tyStep, get?_abs]
@@ -198,14 +198,14 @@ theorem step_refines [TransCmp cmp] (st : Store (Tree α β)) (op : Op α β) (h
     | some m => exact ⟨st.erase t, .done, rfl, by simp [erase_abs], hv.erase t, by simp [erase_size]⟩
 
 /-- whole histories -/
-theorem run_refines [TransCmp cmp] (ops : List (Op α β)) (st : Store (Tree α β)) (hv : AllValid cmp st)
+theorem run_refines [TransCmp cmp] (hsrc : SourceOk) (ops : List (Op α β)) (st : Store (Tree α β)) (hv : AllValid cmp st)
     (hty : WellTyped (sizeStore st) ops) :
     ∃ st' os, run cmp st ops = some (st', os) ∧ Spec.run cmp (absStore st) ops = (absStore st', os) ∧
       AllValid cmp st' := by
   induction ops generalizing st with
   | nil => exact ⟨st, [], rfl, rfl, hv⟩
   | cons op ops ih =>
-    obtain ⟨st1, o, e1, s1, v1, z1⟩ := step_refines st op hv hty.1
+    obtain ⟨st1, o, e1, s1, v1, z1⟩ := step_refines hsrc st op hv hty.1
     obtain ⟨st2, os, e2, s2, v2⟩ := ih st1 v1 (by rw [← z1]; exact hty.2)
     exact ⟨st2, o :: os, by simp [run, e1, e2], by simp [Spec.run, s1, s2], v2⟩
 
